@@ -302,6 +302,22 @@ def main(argv=None):
             undecided.extend({"name": u["name"], "reason": "solver: " + u["verdict"]} for u in r["undecided"])
             axioms.update(r["axioms"])
             trusted.update(r["trusted"])
+            layer = getattr(c, "second_layer", None)
+            if r["violations"] and layer is not None:
+                # defence in depth: this contract states what one of two independent guards ensures.  The property is
+                # broken only if the other guard fails too; otherwise the refuted clause is reported, not as a violation
+                other = layer()
+                r2 = api.symbolic_run(other, a.tier).asdict()
+                holds = not (r2["violations"] or r2["undecided"] or r2["unsupported"] or r2["error"]) and r2["obligations"]
+                if not r2["violations"]:
+                    # second guard verified, or not decided: in neither case is the property shown to be broken
+                    how = ("which verifies (%d obligations)" % len(r2["obligations"])) if holds else \
+                        ("which could not be decided (%s)" % (r2["unsupported"] or r2["error"] or "solver: unknown")[:200])
+                    for name in sorted({v["obligation"] for v in r["violations"]}):
+                        undecided.append({"name": name,
+                                          "reason": "this guard no longer holds on its own (refuted); whether the property "
+                                                    "holds now rests on the second guard %s, %s" % (other.name, how)})
+                    r["violations"] = []
             for v in r["violations"]:
                 v = dict(v)
                 v["contract_index"] = i
